@@ -111,6 +111,10 @@ def _wrap_rng(name):
     return wrapper
 
 
+class SimLiveness(Exception):
+    """sample() kept drawing past the simulator's bound."""
+
+
 class SimRandom:
     """Replacement for ``holopy.core.prior.random`` (C14).  Records every
     primitive call; variates come from a private RandomState, or from a script
@@ -127,7 +131,11 @@ class SimRandom:
         self.rs = np.random.RandomState(seed)
         self.script = []
 
+    MAX_CALLS = 400
+
     def _deliver(self, kind, params, size, fresh):
+        if len(self.calls) >= self.MAX_CALLS:
+            raise SimLiveness('%d primitive draws' % len(self.calls))
         out = fresh
         step = self.script.pop(0) if self.script else None
         if step is not None and step.get('kind', kind) == kind:
